@@ -425,12 +425,12 @@ func init() {
 		Assumptions: []string{"crash model = SIGKILL: completed write(2)/rename/unlink calls survive, nothing is reordered (no power-loss model)", "snapshots are taken while no other hooked mutation is in flight; writes to *.tmp files are not hooked (tmp files are ignored by recovery)", "server-compressed records are expanded with the Go QuickLZ decoder to obtain the durable value"},
 		Plan: func(tier string, seed uint64) []Job {
 			var jobs []Job
-			n, hist, maxs, s2every, max2 := 12, 1, 150, 12, 4
+			n, hist, maxs, s2every, max2 := 10, 1, 130, 14, 3
 			if tier == "thorough" {
 				n, hist, maxs, s2every, max2 = 42, 8, 400, 5, 8
 			}
 			for i := 0; i < n; i++ {
-				jobs = append(jobs, Job{Variant: "plain", Mode: "db.c06", Timeout: 900, Args: js(map[string]interface{}{"Histories": hist, "MaxSnaps": maxs, "Workers": 2, "Stage2Every": s2every, "Max2": max2, "Writes2": 6})})
+				jobs = append(jobs, Job{Variant: "plain", Mode: "db.c06", Timeout: 900, Args: js(map[string]interface{}{"Histories": hist, "MaxSnaps": maxs, "Workers": 1, "Stage2Every": s2every, "Max2": max2, "Writes2": 6})})
 			}
 			// validation of the snapshot model against real SIGKILLs of a running process
 			kills, nk := 6, 2
